@@ -37,6 +37,8 @@ CASES = {
     'honeycomb-3': ('honeycomb', 0, 0.6, 3, False), 'rect2-2': ('rect2', 0, 0.9, 2, True), 'oblique-c1-2': ('oblique-c1', 0, 1.1, 2, True),
     'p222-2': ('p222', 1, 1.3, 2, False), 'tric-c1-2': ('tric-c1', 0, 1.2, 2, True), 'omega-2': ('omega', 0, 0.7, 2, True),
     'b2-2': ('b2', 1, 1.01, 2, False), 'hcp-3': ('hcp', 0, 1.01, 3, False), 'diamond-2': ('diamond', 0, 0.5, 2, True),
+    # confined network: the only jump joins the two sites of an isolated dimer, so two jumps reach nothing new
+    'dimer-2': ('dimer-chain', 0, 0.25, 2, False), 'dimer-3': ('dimer-chain', 0, 0.25, 3, True),
 }
 _B = {}
 
@@ -232,7 +234,11 @@ def structure(case):
         for n1 in range(1, N):
             a = stars.StarSet(jn, crys, chem, n1, originstates=OS)
             b = stars.StarSet(jn, crys, chem, N - n1, originstates=OS)
-            c = a + b
+            try:
+                c = a + b
+            except Exception:   # an exception of the real code is a failure of the law, not of the harness
+                same = False
+                continue
             if set(state_tuples(c.states)) != set(S):
                 same = False
             if set(frozenset(state_tuples([c.states[k] for k in st])) for st in c.stars) != \
@@ -251,7 +257,11 @@ def structure(case):
         acc = one.copy(empty=True)
         want = {1: set(one_states), N: set(S)}
         for k in range(1, N + 1):
-            acc += one
+            try:
+                acc += one
+            except Exception:
+                acc_ok = False
+                break
             if k not in want:
                 want[k] = set(state_tuples(stars.StarSet(jn, crys, chem, k, originstates=OS).states))
             if set(state_tuples(acc.states)) != want[k] or acc.Nshells != k or not consistent(acc):
@@ -263,12 +273,24 @@ def structure(case):
         if state_tuples(ss.states) != S or not consistent(ss) or not consistent(cp) or cp.Nshells != N + 1:
             acc_ok = False
         ob('accumulation-history-keeps-operands-and-sums', acc_ok)
+        # regeneration history on ONE object: every generate() call must leave the set that was asked for LAST
+        # (same range with / without origin states, another range and back)
+        def same_as(x, n, os_):
+            ref = set(S) if (n, os_) == (N, OS) else set(state_tuples(stars.StarSet(jn, crys, chem, n, originstates=os_).states))
+            return set(state_tuples(x.states)) == ref and consistent(x)
+        regen = True
+        h = stars.StarSet(jn, crys, chem, N, originstates=OS)
+        for n, os_ in ((N, not OS), (N, OS), (N - 1, OS), (N, OS), (N, not OS)):
+            h.generate(n, originstates=os_)
+            if not same_as(h, n, os_):
+                regen = False
+        ob('regeneration-history-leaves-the-last-request', regen)
         return obs
     return fn
 
 
-QUICK = ['square-2', 'sc-2', 'hcp-2', 'honeycomb-2', 'rect2-2', 'oblique-c1-2', 'omega-2', 'b2-2', 'diamond-2']
-THOROUGH = QUICK + ['square-3', 'fcc-2', 'honeycomb-3', 'p222-2', 'tric-c1-2', 'hcp-3']
+QUICK = ['square-2', 'sc-2', 'hcp-2', 'honeycomb-2', 'rect2-2', 'oblique-c1-2', 'omega-2', 'b2-2', 'diamond-2', 'dimer-2']
+THOROUGH = QUICK + ['dimer-3', 'square-3', 'fcc-2', 'honeycomb-3', 'p222-2', 'tric-c1-2', 'hcp-3']
 DIFF_Q = ['square-2', 'rect2-2', 'honeycomb-2', 'oblique-c1-2']
 DIFF_T = DIFF_Q + ['hcp-2', 'sc-2', 'omega-2']
 
